@@ -1,5 +1,8 @@
 """Stub of xdsl.parser (only the names re-exported from it that code under contract uses)."""
 from xdsl.dialects.builtin import *  # xdsl.parser re-exports the builtin names
+from xdsl.ir import *  # ... and the core IR names
+from xdsl.irdl import *  # ... and the irdl names
+from xdsl.ir.affine import *  # ... and the affine names
 
 
 class AttrParser:
